@@ -28,6 +28,9 @@ MODULE = "DaliVerif.Props.C18"
 EXES = ["m_wire"]
 GEN = True
 THEOREMS = []   # filled below
+EXTRA_MODULES = ["DaliVerif.Props.EndToEnd"]
+EXTRA_THEOREMS = ["EndToEnd.frame_of_legal", "EndToEnd.luba_delivers", "EndToEnd.sci_delivers",
+                  "EndToEnd.tridonic_delivers", "EndToEnd.hidhasseb_delivers", "EndToEnd.daliserver_delivers"]
 TRUSTED = ["hand-written models Model/Wire.lean of the nine drivers' encoders/decoders (tied by this correspondence: "
            "exhaustive over all 2^16 16-bit frames x send-twice for every driver, every width 1..64, sampled 24-bit "
            "frames, exhaustive over status/type codes on the receive side, > 600 consecutive sequence numbers)",
